@@ -174,8 +174,9 @@ CHECKS = {
         text="Per configuration (temp-dir mode x empty/non-empty outputs x atomic/progressive store x "
              "refresh kw x default/short retry budget x previous dataset) a fault-free baseline fixes the "
              "K fault points (every filesystem call, write and close). Every single fault (k, kind), kind "
-             "in {EIO, ENOENT, error-after-effect, torn write, ENOSPC, stale listing (late visibility / "
-             "late deletion), crash} is enumerated (quick: writes thinned to first/middle/last per file), "
+             "in {EIO, FileNotFoundError (at every call), error-after-effect, torn write, ENOSPC, late "
+             "visibility / late deletion in listings, one stale listing, crash} is enumerated (quick: "
+             "2 configurations, writes thinned to first/middle/last per file; thorough: 48), "
              "then repeated faults around the retry budget, then sampled pairs/triples and multi-worker "
              "schedules. Oracle: completed => stored dataset equals the fault-free one; raised/crashed => "
              "a fault-free repeat with overwrite=True on the surviving tree equals it. Virtual time lets "
@@ -244,6 +245,10 @@ def main():
             {"name": "E1 pack-to-storage", "path": "dsim/e1.py",
              "serves_properties": ["C10", "C19", "C18"],
              "kind_free_text": "real pack_partitions_to_parquet on SimFS under the simulated Dask executor"},
+            {"name": "E5 client threads", "path": "dsim/props/c18.py (+ dsim/core.py line pre-emption)",
+             "serves_properties": ["C18"],
+             "kind_free_text": "N logical client tasks on one shared cold object, seeded line-level "
+                               "pre-emption via sys.settrace, compared with a single-threaded twin"},
             {"name": "E4 sequential histories", "path": "dsim/props/c04.py, c16.py, c20.py",
              "serves_properties": ["C04", "C16", "C20"],
              "kind_free_text": "seeded operation/derivation histories with pickle/parquet restart steps, "
